@@ -517,7 +517,7 @@ const N_SESS: usize = 16;
 /// All sequences of depth <= 4 (quick 3) of API sessions including misuse; a small reference says
 /// which calls must fail; whenever the top-level finalize succeeds the file must read back.
 pub fn orders(ctx: &Ctx) {
-    let maxd = if ctx.tier_thorough { 4 } else { 3 };
+    let maxd = if ctx.tier_thorough { 5 } else { 4 };
     let depth = ctx.pick("depth", maxd + 1);
     let kinds: Vec<usize> = (0..depth).map(|_| ctx.pick("session", N_SESS)).collect();
     let fin = ctx.pick("finalize", 3); // 0 once, 1 twice, 2 customized with failing transformer then plain
